@@ -213,8 +213,10 @@ where
         //
         let counter = HashMap::<u64, u64>::new();
         //
-        let mut rng = ThreadRng::default();
-        let seed = rng.next_u64();
+        let rng = ThreadRng::default();
+        // default seed is fixed so that two instances (possibly in different threads or processes) hash coherently.
+        // It is modified only by an explicit call to change_rng_seed
+        let seed: u64 = 0x9e37_79b9_7f4a_7c15;
         //
         ProbOrdMinHash2 {
             m,
